@@ -103,14 +103,14 @@ PROPS = {
     ),
     'C02': dict(
         streams=[dict(name='registry', quick=800, thorough=60000, filter=only('C02:')),
-                 dict(name='stdall', pg=True, mode='stdall', gen='gen_std.py', quick=120, thorough=2500, filter=only('C02:'))],
+                 dict(name='stdall', pg=True, mode='stdall', gen='gen_std.py', quick=120, thorough=2500, filter=only('C02:'), also_docs=True)],
         rule=REGISTRY_RULE + " C02 oracle: rooted isomorphism (Spec.iso) between the generated type graph and the final registry starting from (identity, returned id) pairs: same path/params/fields/variants/indices/docs/lengths at every node, references corresponding, functional and injective; map_into_portable output = input fields with only references replaced.",
         trusted_base=COMMON_TB,
         assumptions=["TypeId is an injective name of a type (identities modelled as Nat)"],
     ),
     'C05': dict(
         streams=[dict(name='registry', quick=800, thorough=60000, filter=only('C05:')),
-                 dict(name='meta', pg=True, mode='meta', quick=60, thorough=700, filter=only('C05:')),
+                 dict(name='meta', pg=True, mode='meta', quick=60, thorough=700, filter=only('C05:'), also_docs=True),
                  dict(name='stdall', pg=True, mode='stdall', gen='gen_std.py', quick=60, thorough=700, filter=only('C05:'))],
         rule=REGISTRY_RULE + " C05 oracle: registry length = number of identities reachable from the registered roots (Spec.reach); per-node type_info() evaluation counters (harness-side) are 1 exactly for reachable identities and never above 1; re-registering present roots (through any alias, with repetition and interleaving) leaves Registry::types() unchanged; alias nodes (same Identity, different fn pointer) get the id of their target.",
         trusted_base=COMMON_TB,
@@ -124,7 +124,7 @@ PROPS = {
     ),
     'C11': dict(
         streams=[dict(name='registry', quick=800, thorough=60000, filter=only('C11:')),
-                 dict(name='stdall', pg=True, mode='stdall', gen='gen_std.py', quick=120, thorough=2500, filter=only('C11:'))],
+                 dict(name='stdall', pg=True, mode='stdall', gen='gen_std.py', quick=120, thorough=2500, filter=only('C11:'), also_docs=True)],
         rule=REGISTRY_RULE + " C11 oracle: every Registry::types() snapshot contains the previous one unchanged; the same history replayed gives byte-identical encode(); the distinct roots registered one by one in history order, in 3 (thorough 5) random permutations and reversed give registries of the same size that are rooted-isomorphic (Spec.iso from the returned ids) to the original.",
         trusted_base=COMMON_TB,
         assumptions=["TypeId ordering plays no role (BTreeMap<TypeId,_> is only looked up, never iterated)"],
@@ -139,7 +139,7 @@ PROPS = {
     ),
     'C17': dict(
         streams=[dict(name='build', quick=3000, thorough=300000, also_docs=True),
-                 dict(name='derive', pg=True, mode='derive', gen='gen_derive.py', quick=60, thorough=1200, filter=only('C17:')),
+                 dict(name='derive', pg=True, mode='derive', gen='gen_derive.py', quick=60, thorough=1200, filter=only('C17:'), also_docs=True),
                  dict(name='tinfo', pg=True, mode='tinfo', gen='gen_std.py', quick=120, thorough=2500, filter=only('C17:'))],
         rule="random builder programs executed on the real typestate builders, MetaForm (types Node<0..7>, PhantomData<u8> / PhantomData<Node<1>> and the non-marker std types () / Box<()> / str / String as member types, compact::<u8|u32|u128>()) and PortableForm (arbitrary u32 ids): type-level setters before and after .path(..) (type_params, docs, docs_always / docs_portable, repeated: last wins), composite with unit / named / unnamed fields (0-4 field builders, name and type set in either order, type_name and docs setters before, between and after), variants (0-3, index at a random position, discriminant, fields set repeatedly), plus TypeDefTuple::new over lists with PhantomData members and From<TypeDef> for Type; each program run by a harness built WITHOUT and WITH scale-info's docs feature. Derive and built-in impls: the generated derive corpus (with its fixed catalogue: markers inside tuples, as generic arguments, a user type merely named PhantomData) and the built-in corpus, clause 'exactly the declared members that are not PhantomData markers are listed'. Non-trivial: result has a reference or docs; distinct = distinct case lines.",
         trusted_base=COMMON_TB,
@@ -147,7 +147,7 @@ PROPS = {
                      "rustc compiles the generated programs as modelled"],
     ),
     'C16': dict(
-        streams=[dict(name='meta', pg=True, mode='meta', quick=60, thorough=700, filter=only('C16:')),
+        streams=[dict(name='meta', pg=True, mode='meta', quick=60, thorough=700, filter=only('C16:'), also_docs=True),
                  dict(name='tinfo', pg=True, mode='tinfo', quick=60, thorough=700, filter=only('C16:')),
                  dict(name='stdall', pg=True, mode='stdall', gen='gen_std.py', quick=60, thorough=700, filter=only('C16:'))],
         rule=META_RULE,
@@ -182,7 +182,7 @@ PROPS = {
         assumptions=["the supported grammar is the generator's (structs/enums; named/unnamed/unit; 0-2 type parameters, optional lifetime; nested modules incl. raw identifiers; codec skip/compact/index/encoded_as, explicit discriminants; scale_info rename/skip_type_params/capture_docs/replace_segment; doc attributes)"],
     ),
     'C03': dict(
-        streams=[dict(name='derive', pg=True, mode='derive', gen='gen_derive.py', quick=60, thorough=1200, filter=only('C03:'))],
+        streams=[dict(name='derive', pg=True, mode='derive', gen='gen_derive.py', quick=60, thorough=1200, filter=only('C03:'), also_docs=True)],
         rule=DERIVE_RULE + " C03 oracle: SIM.Value.decodeVal run on the REAL registry and the REAL bytes of each value must return exactly the expected value (variant name and index, field names, order, leaves) and no remainder; for enums the first byte must be the variant index of the metadata. Values: integer leaves at compact-class boundaries and extremes, both signs, collections of 0-3 elements, recursion through Option<Box<Self>> / Vec<Self> to depth 3.",
         trusted_base=COMMON_TB + ["parity-scale-codec-derive 3.7.5 (field order, skip, compact, index rules) is modelled by Spec.ValOfD / FieldValsD + Value.encode and tied by comparing bytes on every generated value",
                                   "harness/gen/gen_derive.py writes, for each Rust value expression, the Val it denotes"],
